@@ -149,7 +149,10 @@ class World:
         self.outstanding = []
         self.spawner_alive = [True, True]
         for c in (0, 1):
-            os.write(self.fd_rep[c], bytes([self.limits[c]]))
+            try:
+                os.write(self.fd_rep[c], bytes([self.limits[c]]))
+            except OSError:
+                pass          # the daemon is already gone (crash point before it read the byte)
         self.conn = None
         self.connbuf = b""
         self.exit_status = None
@@ -286,7 +289,10 @@ class World:
         self.history.append(("report", cmd.as_json(), vlib.jsonable(text[:200])))
 
     def raw_report(self, chan, data):
-        os.write(self.fd_rep[chan], data)
+        try:
+            os.write(self.fd_rep[chan], data)
+        except OSError:
+            pass              # daemon gone: the next wait_event() reports its exit
 
     def spawner_die(self, chan):
         if self.spawner_alive[chan]:
